@@ -9,12 +9,19 @@ metas, clock reading and retention:
   2. the delete protocol, cut after ANY number of micro-steps, touches nothing that belongs to a
      surviving segment, in any of the five stores;
   3. a pass interrupted after ANY prefix of its step list and then repeated ends in exactly the state of
-     the uninterrupted pass — because segmeta.json, from which the repeated pass re-reads its victims, is
-     rewritten last; with segmeta.json rewritten FIRST there is a crash point after which files are
-     orphaned forever (this is why the order is tied to the source by a call-order fact);
+     the uninterrupted pass in blob store, local files, in-memory metadata and segmeta.json — because
+     segmeta.json, from which the repeated pass re-reads its victims, is rewritten last; with
+     segmeta.json rewritten FIRST there is a crash point after which files are orphaned forever (this
+     is why the order is tied to the source by a call-order fact).  For the empty-PQ meta files the
+     equality holds when the cut lies before any local file was removed, and fails in general
+     (counterexample): the pqids are read from the victim's .sfm file, which is gone once the files
+     phase has passed — the repeated pass then leaves the victim's entries behind;
   4. after a pass nothing of a victim is left in blob store, local files, in-memory metadata and
-     segmeta.json.  The empty-PQ meta files are NOT cleaned (the pass hands DeleteSegmentData metas
-     without pqids): counterexample + the statement under the guard that excludes that class;
+     segmeta.json, and (after the repair of DeleteSegmentData, which now reads the victims' pqids from
+     their .sfm files) the empty-PQ meta files list only segments that are still in segmeta.json, for
+     every store in which each empty-PQ entry is recorded in its segment's .sfm file (what the writer
+     does at rotation).  The behaviour before the repair (`passOld`: step 4 was dead code) is kept with
+     its counterexample theorem;
   5. the volume pass deletes oldest-first and stops at the first segment that does not fit: the marked
      segments are a prefix of the age-sorted candidates, nothing strictly older than a deleted segment
      stays, and it never deletes as much as the excess — at full strength, for all inputs (only
@@ -93,7 +100,7 @@ theorem survivors_intact (order : List Phase) (vs : List Meta) (s : Store) (cut 
   split
   · exact SameOutside.refl _ s
   · exact sameOutside_foldl _ _ s
-      (fun t ht => targets_stepsFor order vs t (List.mem_of_mem_take ht))
+      (fun t ht => withSfmPqids_keys s vs ▸ targets_stepsFor order (withSfmPqids s vs) t (List.mem_of_mem_take ht))
 
 /-- … in particular for the pass itself: a segment that is not selected keeps its blob objects, files,
 in-memory entry, empty-PQ entries and segmeta.json line, wherever the pass is cut. -/
@@ -104,18 +111,80 @@ theorem survivors_intact_pass (nowMs : Nat) (hours : Int) (s : Store) (cut : Nat
 /-! ### 3. interrupted and repeated -/
 
 /-- C14.3 — for EVERY store, clock, retention and EVERY cut point of the step list: the interrupted pass
-followed by a full pass ends in the state of the uninterrupted pass. -/
+followed by a full pass ends in the state of the uninterrupted pass in the blob store, the local files,
+the in-memory metadata and segmeta.json (`withoutPq` = the store minus its empty-PQ meta files). -/
 theorem interrupt_repeat_converges (nowMs : Nat) (hours : Int) (s : Store) (cut : Nat) :
-    pass deleteOrder nowMs hours (passCut deleteOrder nowMs hours s cut) = pass deleteOrder nowMs hours s :=
+    withoutPq (pass deleteOrder nowMs hours (passCut deleteOrder nowMs hours s cut))
+      = withoutPq (pass deleteOrder nowMs hours s) :=
   interrupt_repeat nowMs hours s cut
+
+/-- … and in ALL five stores when the cut lies inside the blob phase (no local file has been removed
+yet, so the repeated pass reads the same pqids from the .sfm files). -/
+theorem interrupt_repeat_converges_blob_phase (nowMs : Nat) (hours : Int) (s : Store) (cut : Nat)
+    (hc : cut ≤ (victims nowMs hours 0 (readLocal s)).length) :
+    pass deleteOrder nowMs hours (passCut deleteOrder nowMs hours s cut) = pass deleteOrder nowMs hours s := by
+  generalize hvs : victims nowMs hours 0 (readLocal s) = vs at hc
+  by_cases he : vs.isEmpty = true
+  · unfold passCut deleteSegmentData; simp only [hvs, he, if_true]
+  · -- the steps that ran are blob steps: files, .sfm contents and segmeta.json are as before
+    have hL := stepsFor_deleteOrder (withSfmPqids s vs)
+    have hblob : ∀ t ∈ (stepsFor deleteOrder (withSfmPqids s vs)).take cut, ∃ k, t = Step.blob k := by
+      intro t ht
+      rw [hL] at ht
+      have hlen : cut ≤ ((withSfmPqids s vs).map (fun v => Step.blob v.key)).length := by
+        rw [List.length_map, ← List.length_map (f := (·.key)), withSfmPqids_keys, List.length_map]; exact hc
+      rw [List.append_assoc, List.append_assoc, List.append_assoc, List.take_append_of_le_length hlen] at ht
+      obtain ⟨v, _, rfl⟩ := List.mem_map.mp (List.mem_of_mem_take ht)
+      exact ⟨_, rfl⟩
+    have hsame : ∀ (L : List Step) (s0 : Store), (∀ t ∈ L, ∃ k, t = Step.blob k) →
+        (L.foldl applyStep s0).files = s0.files ∧ (L.foldl applyStep s0).sfmPq = s0.sfmPq ∧
+        (L.foldl applyStep s0).segmetaJson = s0.segmetaJson := by
+      intro L
+      induction L with
+      | nil => intro s0 _; exact ⟨rfl, rfl, rfl⟩
+      | cons t L ih =>
+        intro s0 h
+        obtain ⟨k, rfl⟩ := h _ List.mem_cons_self
+        have := ih (applyStep s0 (Step.blob k)) (fun x hx => h x (List.mem_cons_of_mem _ hx))
+        simpa [applyStep] using this
+    have hs1 : passCut deleteOrder nowMs hours s cut = runSteps s ((stepsFor deleteOrder (withSfmPqids s vs)).take cut) := by
+      unfold passCut deleteSegmentData; simp only [hvs, he, if_false, Bool.false_eq_true]
+    obtain ⟨hf, hq, hm⟩ := hsame _ s hblob
+    have hrl : readLocal (passCut deleteOrder nowMs hours s cut) = readLocal s := by
+      rw [hs1]; unfold readLocal runSteps; rw [hm]
+    have hw : withSfmPqids (passCut deleteOrder nowMs hours s cut) vs = withSfmPqids s vs := by
+      rw [hs1]; exact withSfmPqids_congr s _ hf hq vs
+    unfold pass
+    simp only [hrl, hvs]
+    unfold deleteSegmentData
+    simp only [he, if_false, Bool.false_eq_true, hw]
+    rw [hs1]
+    have hlen := stepsFor_withSfm_length deleteOrder s vs
+    rw [← hlen, List.take_length]
+    unfold runSteps
+    exact absorb_before _ _ s (fun t ht => List.mem_of_mem_take ht)
+
+/-- C14.3 (empty-PQ meta files) — the equality in all five stores does NOT hold for every cut: one
+expired segment with an empty-PQ entry, crash after its blob objects and local files are gone (cut 2):
+the repeated pass cannot read the .sfm file any more and leaves the entry, the uninterrupted pass
+removes it.  (Harm: a stale line in a pqmeta file; the same state as after every pass before the
+repair.) -/
+theorem interrupt_repeat_pq_counterexample :
+    ¬ ∀ nowMs hours s cut, pass deleteOrder nowMs hours (passCut deleteOrder nowMs hours s cut) = pass deleteOrder nowMs hours s := by
+  intro h
+  have := h 1790000000000 24
+    { blob := [1], files := [1], memMeta := [1], segmetaJson := [{ key := 1, latest := 1000, kind := .log }],
+      pqMeta := [(7, 1)], sfmPq := [(7, 1)] } 2
+  revert this
+  decide
 
 /-- … and a completed pass is a fixed point: running it again changes nothing. -/
 theorem pass_idempotent (nowMs : Nat) (hours : Int) (s : Store) :
     pass deleteOrder nowMs hours (pass deleteOrder nowMs hours s) = pass deleteOrder nowMs hours s := by
-  have h := interrupt_repeat nowMs hours s (stepsFor deleteOrder (victims nowMs hours 0 (readLocal s))).length
-  unfold passCut at h
-  unfold pass at h ⊢
-  exact h
+  have hnil := victims_after_pass nowMs hours s
+  generalize pass deleteOrder nowMs hours s = s1 at hnil
+  unfold pass deleteSegmentData
+  simp only [hnil, List.isEmpty_nil, if_true]
 
 /-- the store of the design counterexample: one expired segment, present everywhere -/
 def orphanWitness : Store :=
@@ -143,57 +212,52 @@ theorem pass_removes_victims (nowMs : Nat) (hours : Int) (s : Store) (v : Meta)
     cases h : victims nowMs hours 0 (readLocal s) with
     | nil => rw [h] at hv; cases hv
     | cons _ _ => rfl
-  have hs' : s' = (stepsFor deleteOrder (victims nowMs hours 0 (readLocal s))).foldl applyStep s := by
-    show pass deleteOrder nowMs hours s = _
-    unfold pass deleteSegmentData runSteps
-    simp only [hne, List.take_length]
-    rfl
-  generalize hvs : victims nowMs hours 0 (readLocal s) = vs at hv hs'
+  have hs' : s' = (stepsFor deleteOrder (withSfmPqids s (victims nowMs hours 0 (readLocal s)))).foldl applyStep s :=
+    pass_eq_foldl nowMs hours s hne
+  have hkey : v.key ∈ (withSfmPqids s (victims nowMs hours 0 (readLocal s))).map (·.key) := by
+    rw [withSfmPqids_keys]; exact List.mem_map.mpr ⟨v, hv, rfl⟩
+  obtain ⟨w, hw, hwk⟩ := List.mem_map.mp hkey
+  generalize withSfmPqids s (victims nowMs hours 0 (readLocal s)) = vs at hs' hw
   have hL := stepsFor_deleteOrder vs
   have mem_of : ∀ t, t ∈ stepsFor deleteOrder vs → applyStep s' t = s' := by
     intro t ht; rw [hs']; exact absorb_after _ s t ht
   refine ⟨?_, ?_, ?_, ?_⟩
   · intro hk
-    have h := mem_of (Step.blob v.key) (by rw [hL]; simp only [List.mem_append, List.mem_map, List.mem_singleton]; exact Or.inl (Or.inl (Or.inl (Or.inl ⟨v, hv, rfl⟩))))
+    have h := mem_of (Step.blob v.key) (by rw [hL]; simp only [List.mem_append, List.mem_map, List.mem_singleton]; exact Or.inl (Or.inl (Or.inl (Or.inl ⟨w, hw, by rw [hwk]⟩))))
     have : v.key ∈ (applyStep s' (Step.blob v.key)).blob := by rw [h]; exact hk
     simp [applyStep] at this
   · intro hk
-    have h := mem_of (Step.files v.key) (by rw [hL]; simp only [List.mem_append, List.mem_map, List.mem_singleton]; exact Or.inl (Or.inl (Or.inl (Or.inr ⟨v, hv, rfl⟩))))
+    have h := mem_of (Step.files v.key) (by rw [hL]; simp only [List.mem_append, List.mem_map, List.mem_singleton]; exact Or.inl (Or.inl (Or.inl (Or.inr ⟨w, hw, by rw [hwk]⟩))))
     have : v.key ∈ (applyStep s' (Step.files v.key)).files := by rw [h]; exact hk
     simp [applyStep] at this
   · intro hk
-    have h := mem_of (Step.mem v.key) (by rw [hL]; simp only [List.mem_append, List.mem_map, List.mem_singleton]; exact Or.inl (Or.inl (Or.inr ⟨v, hv, rfl⟩)))
+    have h := mem_of (Step.mem v.key) (by rw [hL]; simp only [List.mem_append, List.mem_map, List.mem_singleton]; exact Or.inl (Or.inl (Or.inr ⟨w, hw, by rw [hwk]⟩)))
     have : v.key ∈ (applyStep s' (Step.mem v.key)).memMeta := by rw [h]; exact hk
     simp [applyStep] at this
   · intro m hm hk
     have h := mem_of (Step.segmeta (vs.map (·.key))) (by rw [hL]; simp)
     have : m ∈ (applyStep s' (Step.segmeta (vs.map (·.key)))).segmetaJson := by rw [h]; exact hm
     simp only [applyStep, List.mem_filter, decide_eq_true_eq] at this
-    exact this.2 (List.mem_map.mpr ⟨v, hv, hk.symm⟩)
+    exact this.2 (List.mem_map.mpr ⟨w, hw, by rw [hwk, hk]⟩)
 
 /-- the full statement for the empty-PQ meta files: after a pass they only mention listed segments -/
 def PqMetaClean (nowMs : Nat) (hours : Int) (s : Store) : Prop :=
   ∀ e ∈ (pass deleteOrder nowMs hours s).pqMeta, e.2 ∈ (pass deleteOrder nowMs hours s).segmetaJson.map (·.key)
 
-/-- C14.4 (defect) — it is false: `ReadLocalSegmeta(false)` yields metas without pqids, so step 4 of
-`DeleteSegmentData` has nothing to iterate over and the entry of a deleted segment stays. -/
-theorem pqmeta_clean_counterexample : ¬ ∀ nowMs hours s, PqMetaClean nowMs hours s := by
-  intro h
-  have := h 1790000000000 24 { orphanWitness with pqMeta := [(7, 1)] }
-  revert this
-  unfold PqMetaClean
-  decide
+/-- what the writer maintains (rotation writes the segment's pqids into its .sfm file and the empty ones
+into the pqmeta files; pkg/segment/writer/segstore.go): every empty-PQ entry is recorded in the .sfm
+file of its segment, and that file exists -/
+def PqEntriesInSfm (s : Store) : Prop := ∀ e ∈ s.pqMeta, e ∈ s.sfmPq ∧ e.2 ∈ s.files
 
-/-- guard: no empty-PQ entry refers to a segment the pass is going to delete -/
-def NoPqEntryForVictims (nowMs : Nat) (hours : Int) (s : Store) : Prop :=
-  ∀ e ∈ s.pqMeta, e.2 ∉ (victims nowMs hours 0 (readLocal s)).map (·.key)
+example : PqEntriesInSfm { orphanWitness with pqMeta := [(7, 1)], sfmPq := [(7, 1), (8, 1)] } := by
+  unfold PqEntriesInSfm; decide
 
-example : NoPqEntryForVictims 1790000000000 24 { orphanWitness with pqMeta := [(7, 2)] } := by
-  unfold NoPqEntryForVictims; decide
-
-/-- C14.4 (partial) — under the guard (and a store whose empty-PQ files were clean before), they are clean after. -/
-theorem pqmeta_clean_partial (nowMs : Nat) (hours : Int) (s : Store)
-    (hg : NoPqEntryForVictims nowMs hours s)
+/-- C14.4 (empty-PQ meta files, after the repair) — for EVERY store the writer can have produced (and
+whose empty-PQ files mentioned only listed segments before), clock and retention: after the pass the
+empty-PQ meta files mention only segments that are still listed in segmeta.json — the entries of every
+victim are gone. -/
+theorem pqmeta_clean (nowMs : Nat) (hours : Int) (s : Store)
+    (hsfm : PqEntriesInSfm s)
     (hpre : ∀ e ∈ s.pqMeta, e.2 ∈ s.segmetaJson.map (·.key)) :
     PqMetaClean nowMs hours s := by
   intro e he
@@ -201,30 +265,89 @@ theorem pqmeta_clean_partial (nowMs : Nat) (hours : Int) (s : Store)
     (stepsFor deleteOrder (victims nowMs hours 0 (readLocal s))).length
   have hpass : pass deleteOrder nowMs hours s = deleteSegmentData deleteOrder (victims nowMs hours 0 (readLocal s)) s
       (stepsFor deleteOrder (victims nowMs hours 0 (readLocal s))).length := rfl
-  rw [hpass] at he ⊢
-  -- e was there before (filters only remove)
+  -- filters only remove
+  have hsub : ∀ (L : List Step) (s0 : Store), e ∈ (L.foldl applyStep s0).pqMeta → e ∈ s0.pqMeta := by
+    intro L
+    induction L with
+    | nil => intro s0 h; exact h
+    | cons t L ih =>
+      intro s0 h
+      have := ih _ h
+      cases t <;> first | exact this | exact (List.mem_filter.mp this).1
   have he0 : e ∈ s.pqMeta := by
-    by_cases hk : e.2 ∈ (victims nowMs hours 0 (readLocal s)).map (·.key)
-    · -- then it was not in the store at all, by the guard … but it is still a member of the original list
-      have hsub : ∀ (L : List Step) (s0 : Store), e ∈ (L.foldl applyStep s0).pqMeta → e ∈ s0.pqMeta := by
-        intro L
-        induction L with
-        | nil => intro s0 h; exact h
-        | cons t L ih =>
-          intro s0 h
-          have := ih _ h
-          cases t <;> first | exact this | exact (List.mem_filter.mp this).1
-      unfold deleteSegmentData at he
-      split at he
-      · exact he
-      · exact hsub _ s he
-    · exact (hso.pq e.1 e.2 hk).mp he
-  have hnv := hg e he0
-  obtain ⟨m, hm, hmk⟩ := List.mem_map.mp (hpre e he0)
-  have : m ∈ (deleteSegmentData deleteOrder (victims nowMs hours 0 (readLocal s)) s
-      (stepsFor deleteOrder (victims nowMs hours 0 (readLocal s))).length).segmetaJson :=
-    (hso.segmeta m (by rw [hmk]; exact hnv)).mpr hm
-  exact List.mem_map.mpr ⟨m, this, hmk⟩
+    rw [hpass] at he
+    unfold deleteSegmentData at he
+    split at he
+    · exact he
+    · exact hsub _ s he
+  by_cases hk : e.2 ∈ (victims nowMs hours 0 (readLocal s)).map (·.key)
+  · -- a victim: its pq step carries the pqid (read from the .sfm file) and removed the entry
+    exfalso
+    obtain ⟨v, hv, hvk⟩ := List.mem_map.mp hk
+    have hne : (victims nowMs hours 0 (readLocal s)).isEmpty = false := by
+      cases h : victims nowMs hours 0 (readLocal s) with
+      | nil => rw [h] at hv; cases hv
+      | cons _ _ => rfl
+    have hs' := pass_eq_foldl nowMs hours s hne
+    have hvp : v.pqids = [] := by
+      obtain ⟨m, _, rfl⟩ := List.mem_map.mp (List.mem_filter.mp hv).1
+      rfl
+    have hstep : Step.pq v.key (sfmPqids s v.key) ∈
+        stepsFor deleteOrder (withSfmPqids s (victims nowMs hours 0 (readLocal s))) := by
+      rw [stepsFor_deleteOrder]
+      simp only [List.mem_append, List.mem_map, List.mem_singleton]
+      refine Or.inl (Or.inr ⟨{ v with pqids := sfmPqids s v.key }, ?_, rfl⟩)
+      unfold withSfmPqids
+      exact List.mem_map.mpr ⟨v, hv, by simp [hvp]⟩
+    have habs := absorb_after _ s _ hstep
+    rw [← hs'] at habs
+    have : e ∈ (applyStep (pass deleteOrder nowMs hours s) (Step.pq v.key (sfmPqids s v.key))).pqMeta := by
+      rw [habs]; exact he
+    simp only [applyStep, List.mem_filter, Bool.not_eq_true', Bool.and_eq_false_imp, decide_eq_true_eq,
+      decide_eq_false_iff_not] at this
+    apply this.2 hvk.symm
+    obtain ⟨h1, h2⟩ := hsfm e he0
+    unfold sfmPqids
+    rw [hvk] at *
+    simp only [h2, if_true, List.mem_map, List.mem_filter, decide_eq_true_eq]
+    exact ⟨e, ⟨h1, rfl⟩, rfl⟩
+  · -- a survivor: untouched, and still listed
+    obtain ⟨m, hm, hmk⟩ := List.mem_map.mp (hpre e he0)
+    have : m ∈ (deleteSegmentData deleteOrder (victims nowMs hours 0 (readLocal s)) s
+        (stepsFor deleteOrder (victims nowMs hours 0 (readLocal s))).length).segmetaJson :=
+      (hso.segmeta m (by rw [hmk]; exact hk)).mpr hm
+    rw [hpass]
+    exact List.mem_map.mpr ⟨m, this, hmk⟩
+
+/-- the regression witness of the repaired defect: segment 1 expired, pqid 7 has an empty-results entry
+for it; after the pass the entry is gone -/
+example : (pass deleteOrder 1790000000000 24 { orphanWitness with pqMeta := [(7, 1)], sfmPq := [(7, 1)] }).pqMeta = [] := by
+  decide
+
+/-- the same statement for the pass BEFORE the repair … -/
+def PqMetaCleanOld (nowMs : Nat) (hours : Int) (s : Store) : Prop :=
+  ∀ e ∈ (passOld deleteOrder nowMs hours s).pqMeta, e.2 ∈ (passOld deleteOrder nowMs hours s).segmetaJson.map (·.key)
+
+/-- … was false on stores the writer produces: `ReadLocalSegmeta(false)` yields metas without pqids, so
+step 4 of the old `DeleteSegmentData` had nothing to iterate over and the entry of a deleted segment
+stayed for ever. -/
+theorem pqmeta_clean_old_counterexample :
+    ¬ ∀ nowMs hours s, PqEntriesInSfm s → (∀ e ∈ s.pqMeta, e.2 ∈ s.segmetaJson.map (·.key)) → PqMetaCleanOld nowMs hours s := by
+  intro h
+  have := h 1790000000000 24 { orphanWitness with pqMeta := [(7, 1)], sfmPq := [(7, 1)] }
+    (by unfold PqEntriesInSfm; decide) (by decide)
+  revert this
+  unfold PqMetaCleanOld
+  decide
+
+/-- the hypothesis `PqEntriesInSfm` cannot be dropped: an empty-PQ entry that the segment's .sfm file does
+not record (or whose .sfm file is gone, as after a crash in the files phase: C14.3) is not found -/
+theorem pqmeta_clean_needs_sfm : ¬ ∀ nowMs hours s, PqMetaClean nowMs hours s := by
+  intro h
+  have := h 1790000000000 24 { orphanWitness with pqMeta := [(7, 1)] }
+  revert this
+  unfold PqMetaClean
+  decide
 
 /-! ### 5. the volume pass -/
 
